@@ -269,7 +269,34 @@ func ruleSizeAccounting(c *Ctx) {
 			leftoverObj = info.ObjectOf(id)
 		}
 	}
+	// data = bytes.TrimLeft(data, …) / TrimPrefix: the result is a suffix of its argument (library contract), so it
+	// consumes len(before) - len(after) bytes
+	isSuffixAssign := func(n ast.Node) bool {
+		as, ok := n.(*ast.AssignStmt)
+		if !ok || leftoverObj == nil || as.Tok != token.ASSIGN || len(as.Lhs) != 1 || len(as.Rhs) != 1 {
+			return false
+		}
+		id, ok := ast.Unparen(as.Lhs[0]).(*ast.Ident)
+		if !ok || info.ObjectOf(id) != leftoverObj {
+			return false
+		}
+		tc, ok := ast.Unparen(as.Rhs[0]).(*ast.CallExpr)
+		if !ok || len(tc.Args) < 1 {
+			return false
+		}
+		f := callee(info, tc)
+		if !(isFunc(f, "bytes", "TrimLeft") || isFunc(f, "bytes", "TrimPrefix") || isFunc(f, "bytes", "TrimLeftFunc")) {
+			return false
+		}
+		aid, ok := ast.Unparen(tc.Args[0]).(*ast.Ident)
+		return ok && info.ObjectOf(aid) == leftoverObj
+	}
 	cl.Before = func(a *Aff, n ast.Node, st *affSpace) *affSpace {
+		if isSuffixAssign(n) {
+			if li, ok := a.idx[leftoverObj]; ok {
+				return st.assignMany(map[int]*affForm{a.Ghost("L0"): a.VarForm(li)})
+			}
+		}
 		if parseAs != nil && n == ast.Node(parseAs) {
 			if f, ok := a.LenForm(pcall.Args[0]); ok {
 				return st.assignMany(map[int]*affForm{a.Ghost("L0"): f})
@@ -319,6 +346,9 @@ func ruleSizeAccounting(c *Ctx) {
 		// consumption: the parser takes len(before) - len(leftover) bytes; `data = data[k:]` takes k
 		if kg := a.Ghost("K"); leftoverObj != nil {
 			if li, ok := a.idx[leftoverObj]; ok {
+				if isSuffixAssign(n) {
+					return st.assignMany(map[int]*affForm{kg: a.VarForm(kg).add(a.VarForm(a.Ghost("L0")), 1).add(a.VarForm(li), -1)})
+				}
 				if parseAs != nil && n == ast.Node(parseAs) {
 					return st.assignMany(map[int]*affForm{kg: a.VarForm(kg).add(a.VarForm(a.Ghost("L0")), 1).add(a.VarForm(li), -1)})
 				}
@@ -518,7 +548,15 @@ func ruleSizeAccounting(c *Ctx) {
 	nret := 0
 	for _, r := range fg.Returns() {
 		rs := r.Node.(*ast.ReturnStmt)
-		if returnsError(info, v.fn, rs) {
+		// `return helper(…)`: the helper's own normal exits are the normal return (the call is analysed in place, so
+		// the state after the statement is the state at those exits)
+		viaHelper := false
+		if len(rs.Results) == 1 && cl.Inline != nil {
+			if call, ok := ast.Unparen(rs.Results[0]).(*ast.CallExpr); ok && cl.Inline(call) != nil {
+				viaHelper = true
+			}
+		}
+		if returnsError(info, v.fn, rs) && !viaHelper {
 			continue
 		}
 		nret++
@@ -527,6 +565,9 @@ func ruleSizeAccounting(c *Ctx) {
 			suffix = fmt.Sprintf("#%d", nret)
 		}
 		st := a.At(r)
+		if viaHelper {
+			st = a.AfterLoc(r)
+		}
 		if os.Getenv("AFFDBG") != "" {
 			fmt.Fprintln(os.Stderr, "AFFDBG return", a.Dump(st))
 		}
@@ -632,6 +673,41 @@ func ruleNulSkip(c *Ctx) {
 			return true
 		})
 		return hit
+	}
+	// the library form: data = bytes.TrimLeft(data, "\x00") directly in front of the parser (same block, no store to
+	// data in between) removes every leading NUL
+	trimmed := false
+	if b := v.parse.Block; b != nil {
+		for i := v.parse.Idx - 1; i >= 0 && !trimmed; i-- {
+			as, ok := b.Nodes[i].(*ast.AssignStmt)
+			if !ok {
+				continue
+			}
+			stores := false
+			for _, l := range as.Lhs {
+				if id, ok := ast.Unparen(l).(*ast.Ident); ok && info.ObjectOf(id) == dataObj {
+					stores = true
+				}
+			}
+			if !stores {
+				continue
+			}
+			if len(as.Lhs) == 1 && len(as.Rhs) == 1 {
+				if tc, ok := ast.Unparen(as.Rhs[0]).(*ast.CallExpr); ok && isFunc(callee(info, tc), "bytes", "TrimLeft") && len(tc.Args) == 2 {
+					if aid, ok := ast.Unparen(tc.Args[0]).(*ast.Ident); ok && info.ObjectOf(aid) == dataObj {
+						if cut, ok := constString(info, tc.Args[1]); ok && cut == "\x00" {
+							trimmed = true
+						}
+					}
+				}
+			}
+			break // the nearest store to data decides
+		}
+	}
+	if trimmed {
+		c.ok("parse-after-nul-test", call.Pos(), true, "ReadNextCommand is preceded by data = bytes.TrimLeft(data, \"\\x00\"): it never sees a leading NUL")
+		c.ok("nul-advances-data", call.Pos(), true, "bytes.TrimLeft removes every leading NUL byte")
+		return
 	}
 	dom := false
 	var testBlock Loc
